@@ -44,3 +44,8 @@ Definition chk_c11e (c : c11e_case) : Z :=
 Definition c11e_shape (c : c11e_case) : Z :=
   (match elab_export_model2 (e_xinfo c) (e_design c) with Ok _ => 1 | Error _ => 0 end) +
   (if frag_ok2 (e_design c) then 2 else 0) + (if frag_ok (e_design c) then 4 else 0) + (if xinfo_c11_ok (e_xinfo c) then 8 else 0).
+
+(* stream ptext (spec validation of Model/C11EConv.v:parse_pvalue): the text harness/impl/designlib.py:pval_str printed for a live
+   ParamValue message, and the same message as the C11 harness printer reads it.  Code 3: parse_pvalue reads the text otherwise. *)
+Definition ptext_case := (string * pvalue)%type.
+Definition chk_ptext (c : ptext_case) : Z := if pvalue_eqb (parse_pvalue (fst c)) (snd c) then 0 else 3.
